@@ -478,7 +478,7 @@ def _run(v, tier, seed):
            "random_packets_lost": ex_tot["packets_lost"], "random_packets_duplicated": ex_tot["packets_duplicated"], "random_perfect_runs_judged_exactly_once": ex_tot["clause2_judged"],
            "executions_validated_by_tlc": ex_tot["traces_written"], "trace_lines_validated_by_tlc": ex_tot["trace_lines"],
            "evaluations": tot["replays"] + ex_tot["runs"], "distinct_nontrivial": tot["followed"],
-           "rule": "behaviours = path cover of EVERY transition of the TLC state graphs of the generation instances of TunImpl / MiniTunImpl (distinct by construction: each adds an uncovered transition; simulated behaviours de-duplicated by hash), each replayed under 1-4 slave gateway kinds; non-trivial = followed to the end with every step's packets, deliveries and projected private state equal to the specification's; random runs counted in evaluations only",
+           "rule": "a case = (behaviour, slave gateway kind); behaviours = path cover of EVERY transition of the TLC state graphs of the generation instances of TunImpl / MiniTunImpl (distinct by construction: each adds an uncovered transition; simulated behaviours de-duplicated by hash), each replayed on real gateways under 1-4 slave kinds; non-trivial = followed to the end with every step's packets, deliveries and projected private state equal to the specification's and the TunAbs monitor silent; the seeded random runs are counted in evaluations only",
            "exhaustive": True, "random_run_batches": ex_notes, "model_runs": mc_notes, "generation_instances": gen_notes, "deviations_in_the_model": sorted(set(dev_tun + dev_mini)), "samples": samples[:12]}
     assumptions = ["message ids never collide among the Messages a receiver can still see: the acceptance test identifies a Message by its 32-bit id, total size and expected offset only, so after a full wrap of the id (2^32 consecutive Messages of one sender with every fragment in between lost) the head of an old Message and the tail of a new one of EQUAL size would be combined; TLC exhibits it with IDSPACE = 2 (Reach_IdCollision.cfg) and the harness reproduces it on the real code by winding the id counter back (directed case id-collision-hole); not claimed",
                    "the network loses, duplicates and reorders whole packets but does not corrupt them (hostile packets are property C02)",
